@@ -45,25 +45,31 @@ impl Compile for Callable<'_> {
         let mut register_start = None;
         let mut register_count = 0;
 
-        let mut args_init: Vec<CompiledItem> = self
-            .function_arguments
-            .iter()
-            .flat_map(|x| {
-                let mut value_init = x.compile(state).unwrap();
+        let mut args_init: Vec<CompiledItem> = vec![];
 
-                let argument_register = unsafe { state.poll_temporary_register_ghost() };
-
-                value_init.push(instruction!(store_fast argument_register));
-
-                if register_start.is_none() {
-                    register_start = Some(argument_register.id);
+        for argument in self.function_arguments.iter() {
+            // an error found while generating code for an argument is reported, like everywhere else
+            let mut value_init = match argument.compile(state) {
+                Ok(value_init) => value_init,
+                Err(e) => {
+                    // give back the registers of the arguments before this one
+                    unsafe { state.free_many_temporary_registers(register_count) };
+                    return Err(e);
                 }
+            };
 
-                register_count += 1;
+            let argument_register = unsafe { state.poll_temporary_register_ghost() };
 
-                value_init
-            })
-            .collect();
+            value_init.push(instruction!(store_fast argument_register));
+
+            if register_start.is_none() {
+                register_start = Some(argument_register.id);
+            }
+
+            register_count += 1;
+
+            args_init.append(&mut value_init);
+        }
 
         #[cfg(feature = "debug")]
         {
